@@ -15,8 +15,8 @@ from harness import layera
 META = {
     "level": "translation_validation",
     "technique": "Coq-verified validator (product exploration of compiled plans against the mapped-back run; proved sound and exact for all plans up to the depth, for any pair of problems and any map-back table) applied by vm_compute to the output of the real compilers on generated problems",
-    "text": "LAYER A (proved for ALL problems of the modelled fragment, Props/C06.v and part files Props/C06_*.v, theorems C06_LA_*): QuantifiersRemover (expand_quantifiers_eval for both quantifier modes, quant_sound), StateInvariantsRemover and BoundedTypesRemover (sir/btr_valid_plan: the verdicts differ exactly by 'the moved constraints hold initially'; sir/btr_sound need no hypothesis on the initial state), ConditionalEffectsRemover (cer_sound), DisjunctiveConditionsRemover without (dcr_sound) and with the auxiliary goal action (dcrgoal_sound), Grounder (ground_sound), NegativeConditionsRemover (ncr_sound: same verdict for every plan from related states), UsertypeFluentsRemover (utfr_sound, flat fragment), UndefinedInitialNumericRemover (uinr_valid_plan), TrajectoryConstraintsRemover (regression exact, monitor decides PDDL3, plan level for always and sometime), pipelines of certified stages of any length (pipe_pipeline_sound), each tied to the code by a structural correspondence on the real compilers' output (harness/layera.py, harness/layera_<compiler>.py, evidence keys layerA_*). LAYER B (every compiler and pipeline, validated): sound_check_correct: a true answer implies that every valid compiled plan up to the depth maps back to a valid original plan (trajectory constraints by a monitor proved equal to the PDDL3 semantics); sound_search_witness: a false answer is a concrete valid compiled plan whose image is invalid. The quantifier over plans/states is proved, the quantifier over problems is sampled (generated problems per compiler + corner corpus).",
-    "note": "level stays translation_validation because not every compiler named in the property is proved for all problems without external hypotheses: PROVED at plan level (Layer A, Props/C06.v + part files Props/C06_*.v) = QuantifiersRemover, StateInvariantsRemover, BoundedTypesRemover, ConditionalEffectsRemover, DisjunctiveConditionsRemover (with and without the auxiliary goal action: C06_dcrgoal in C06_pipe.v), Grounder, NegativeConditionsRemover (C06_ncr.v; under ncr_safe / one_value, the excluded shape is the recorded finding C06-ncr-add-after-delete, refuted inside the model), UsertypeFluentsRemover (C06_utfr.v; fragment: no forall effects, flat object reads; under one_value, the excluded shape is C06-utfr-masked-object-conflict), UndefinedInitialNumericRemover (C06_uinr.v; under the decidable uinr_ok; the excluded shapes are the recorded findings C07-uinr-guard-on-conditional-read and C08-uinr-quantified-read), pipelines of certified stages of any length (C06_pipe.v: composition theorem, closed instances quantifiers+conditional-effects and grounder+conditional-effects); PROVED at function level only = TrajectoryConstraintsRemover (C06_tcr.v: regression exact, gamma, the monitor decides PDDL3 traj_holds; the plan-level equation is the unproved Definition C06_LA_tcr_plan_goal); VALIDATED ONLY = durative actions of every compiler, TCR at plan level, the other pipelines. Every Layer A model is tied to the real compiler by a structural correspondence on the cases of this run (harness/layera.py and harness/layera_<compiler>.py; evidence keys layerA_*). Layer A hypotheses (stated in the theorems): the Simplifier keeps value/definedness of the conditions it rewrites (smp_exact / smp_holds / simp_pre_ok; the real one only refines, C11 - the gap is the recorded deviation C01-simplified-undefined-read), expressions buildable by the manager with Boolean arguments under Not/quantifiers and consistently typed variables (wfe), Boolean fluents hold Booleans, effect targets defined, unique action names, fresh variant names (C08), DNF walker equivalences (C12), the C37 hypotheses on a step-closed set of states. Layer B: validated, not proved for all problems: problems are sampled. Strict documented semantics (spec_step false) on BOTH problems, so the recorded simulator deviations (C01-*) do not enter; witnesses are double-checked with the real SequentialPlanValidator. Trusted: Coq kernel/vm_compute, harness serialiser (problems, initial values, ground instances, map-back table), CPython running the compilers. No axioms.",
+    "text": "LAYER A (proved for ALL problems of the modelled fragment, Props/C06.v and part files Props/C06_*.v, theorems C06_LA_*): QuantifiersRemover (expand_quantifiers_eval for both quantifier modes, quant_sound), StateInvariantsRemover and BoundedTypesRemover (sir/btr_valid_plan: the verdicts differ exactly by 'the moved constraints hold initially'; sir/btr_sound need no hypothesis on the initial state), ConditionalEffectsRemover (cer_sound), DisjunctiveConditionsRemover without (dcr_sound) and with the auxiliary goal action (dcrgoal_sound), Grounder (ground_sound), NegativeConditionsRemover (ncr_sound: same verdict for every plan from related states), UsertypeFluentsRemover (utfr_sound, flat fragment), UndefinedInitialNumericRemover (uinr_valid_plan), TrajectoryConstraintsRemover (regression exact, monitor decides PDDL3, plan level for a single constraint of each operator), pipelines of certified stages of any length (pipe_pipeline_sound), each tied to the code by a structural correspondence on the real compilers' output (harness/layera.py, harness/layera_<compiler>.py, evidence keys layerA_*). LAYER B (every compiler and pipeline, validated): sound_check_correct: a true answer implies that every valid compiled plan up to the depth maps back to a valid original plan (trajectory constraints by a monitor proved equal to the PDDL3 semantics); sound_search_witness: a false answer is a concrete valid compiled plan whose image is invalid. The quantifier over plans/states is proved, the quantifier over problems is sampled (generated problems per compiler + corner corpus).",
+    "note": "level stays translation_validation because not every compiler named in the property is proved for all problems without external hypotheses: PROVED at plan level (Layer A, Props/C06.v + part files Props/C06_*.v) = QuantifiersRemover, StateInvariantsRemover, BoundedTypesRemover, ConditionalEffectsRemover, DisjunctiveConditionsRemover (with and without the auxiliary goal action: C06_dcrgoal in C06_pipe.v), Grounder, NegativeConditionsRemover (C06_ncr.v; under ncr_safe / one_value, the excluded shape is the recorded finding C06-ncr-add-after-delete, refuted inside the model), UsertypeFluentsRemover (C06_utfr.v; fragment: no forall effects, flat object reads; under one_value, the excluded shape is C06-utfr-masked-object-conflict), UndefinedInitialNumericRemover (C06_uinr.v; under the decidable uinr_ok; the excluded shapes are the recorded findings C07-uinr-guard-on-conditional-read and C08-uinr-quantified-read), pipelines of certified stages of any length (C06_pipe.v: composition theorem, closed instances quantifiers+conditional-effects and grounder+conditional-effects); TrajectoryConstraintsRemover (C06_tcr.v: regression exact, gamma, the monitor decides PDDL3 traj_holds, and the plan-level equation for a single constraint of each of the five operators; several constraints at once are the unproved Definition C06_LA_tcr_plan_goal); VALIDATED ONLY = durative actions of every compiler, TCR with several constraints, the other pipelines. Every Layer A model is tied to the real compiler by a structural correspondence on the cases of this run (harness/layera.py and harness/layera_<compiler>.py; evidence keys layerA_*). Layer A hypotheses (stated in the theorems): the Simplifier keeps value/definedness of the conditions it rewrites (smp_exact / smp_holds / simp_pre_ok; the real one only refines, C11 - the gap is the recorded deviation C01-simplified-undefined-read), expressions buildable by the manager with Boolean arguments under Not/quantifiers and consistently typed variables (wfe), Boolean fluents hold Booleans, effect targets defined, unique action names, fresh variant names (C08), DNF walker equivalences (C12), the C37 hypotheses on a step-closed set of states. Layer B: validated, not proved for all problems: problems are sampled. Strict documented semantics (spec_step false) on BOTH problems, so the recorded simulator deviations (C01-*) do not enter; witnesses are double-checked with the real SequentialPlanValidator. Trusted: Coq kernel/vm_compute, harness serialiser (problems, initial values, ground instances, map-back table), CPython running the compilers. No axioms.",
 }
 
 
